@@ -257,7 +257,17 @@ func init() {
 		// vConcretize(x, max): case-split x into its feasible concrete values (at most max)
 		"vConcretize": func(m *Machine, caller *frame, fn *ssa.Function, args []Value, pos token.Pos) Value {
 			mx := args[1].(*Term)
-			return I64(int64(m.ex.Concretize(args[0].(*Term), int(mx.val), m.posStr(pos))))
+			cap := 256
+			if mx.IsConst() && int(mx.val) > 0 && int(mx.val) < cap {
+				cap = int(mx.val)
+			}
+			return I64(int64(m.ex.Concretize(args[0].(*Term), cap, m.posStr(pos))))
+		},
+		// vLoopBound(n): from here on, a loop header executed more than n times within one call is reported as an
+		// unwinding failure (possible non-termination on inputs of this size) - a violation, not an inconclusive
+		"vLoopBound": func(m *Machine, caller *frame, fn *ssa.Function, args []Value, pos token.Pos) Value {
+			m.loopBound = int(args[0].(*Term).val)
+			return nil
 		},
 		"vCut": func(m *Machine, caller *frame, fn *ssa.Function, args []Value, pos token.Pos) Value {
 			panic(&CutPath{m.goString(args[0].(Str))})
